@@ -74,6 +74,42 @@ func scaleCase(stream, op string, attrs []Attr, whole []*TJ, pieces [][]*TJ, cha
 	return scaleCaseAxis(stream, op, attrs, whole, pieces, k, n)
 }
 
+// scaleCaseAttrs: the pieces differ in their ATTRIBUTES (Constant: the value tensor); outputs joined along axis 0
+func scaleCaseAttrs(stream, op string, attrs []Attr, pattrs [][]Attr, whole []*TJ, pieces [][]*TJ, n int) *Case {
+	c := &Case{Kind: "scale", Stream: stream, Op: op, P: map[string]any{"n": n, "pieces": len(pieces), "whole_shapes": [][]int{{n}}}}
+	c.Impl = guard(func() *Result {
+		rep := scaleReport{What: op, N: n, Pieces: len(pieces)}
+		w, err := applyFresh(op, attrs, whole)
+		if err != nil {
+			return &Result{Status: "error", Msg: "whole operand: " + err.Error(), ErrKind: "other"}
+		}
+		wf := flat64(w)
+		var joined []float64
+		for i, p := range pieces {
+			o, err := applyFresh(op, pattrs[i], p)
+			if err != nil {
+				return &Result{Status: "error", Msg: "piece: " + err.Error(), ErrKind: "other"}
+			}
+			joined = append(joined, flat64(o)...)
+		}
+		if len(wf) != len(joined) {
+			rep.Mismatches = 1
+			rep.First = fmt.Sprintf("%d elements, the pieces give %d", len(wf), len(joined))
+		} else {
+			for i := range wf {
+				if math.Float64bits(wf[i]) != math.Float64bits(joined[i]) {
+					if rep.Mismatches == 0 {
+						rep.First = fmt.Sprintf("element %d of %d: whole %v, from its piece %v", i, len(wf), wf[i], joined[i])
+					}
+					rep.Mismatches++
+				}
+			}
+		}
+		return &Result{Status: "ok", Extra: rep}
+	})
+	return c
+}
+
 // scaleCaseAxis: the piece outputs are joined along axis joinAxis of the output
 func scaleCaseAxis(stream, op string, attrs []Attr, whole []*TJ, pieces [][]*TJ, joinAxis int, n int) *Case {
 	chanAxis := joinAxis != 0
@@ -278,6 +314,10 @@ func genScale(e *emitter, prop string, tier string) {
 	}
 	switch prop {
 	case "C12":
+		// payloads beyond a mebibyte, raw (what exporters write for weights)
+		for _, cn := range [][2]int{{1, 300007}, {11, 150001}, {7, 140003}, {6, 270001}} {
+			e.emit(scaleDecodeCase(int32(cn[0]), true, cn[1]))
+		}
 		for _, n := range append(append([]int{}, sizes...), 257*257, 300*219+5) {
 			for _, code := range []int32{1, 11, 6, 7, 3, 5, 2, 4, 12, 13, 9} {
 				e.emit(scaleDecodeCase(code, true, n))
@@ -356,6 +396,22 @@ func genScale(e *emitter, prop string, tier string) {
 			e.emit(scaleCase("scale-elementwise", "PRelu", nil, []*TJ{x, sl}, pieces, false, n))
 		}
 	case "C11":
+		// a Constant holding more than a mebibyte (raw and typed), against the Constants of its 17 pieces
+		for _, dn := range []struct {
+			dt string
+			n  int
+		}{{"f32", 300007}, {"f64", 150001}, {"i64", 70001}} {
+			x := seqT(dn.dt, []int{dn.n}, func(i int) float64 { return float64((i*7+3)%1013 - 500) })
+			for _, raw := range []bool{true, false} {
+				var pieces [][]*TJ
+				var pattrs [][]Attr
+				for _, p := range splitRows(x, 17) {
+					pieces = append(pieces, []*TJ{})
+					pattrs = append(pattrs, []Attr{{Name: "value", Type: "t", T: p, Raw: raw}})
+				}
+				e.emit(scaleCaseAttrs("scale-constant", "Constant", []Attr{{Name: "value", Type: "t", T: x, Raw: raw}}, pattrs, []*TJ{}, pieces, dn.n))
+			}
+		}
 		for _, n := range sizes {
 			for _, pr := range [][2]string{{"f32", "i32"}, {"i64", "f32"}, {"f64", "u16"}, {"i32", "i64"}, {"u16", "f64"}} {
 				x := seqT(pr[0], []int{n}, func(i int) float64 { return float64(i%97 + 1) })
@@ -463,17 +519,20 @@ func genScale(e *emitter, prop string, tier string) {
 			x := seqT("f32", []int{3, w}, func(i int) float64 { return float64(i%1000 + 1) })
 			ix := idxT("i64", []int{4}, []int{2, 0, 1, 1})
 			var pg, ps, pt, pc, pe [][]*TJ
-			for _, p := range splitAxis(x, 1, 17) {
+			// the second Concat operand differs from the first (joining x with itself would hide a mix-up)
+			x2 := seqT("f32", []int{3, w}, func(i int) float64 { return float64(-(i%777 + 2)) })
+			p2s := splitAxis(x2, 1, 17)
+			for pi, p := range splitAxis(x, 1, 17) {
 				pg = append(pg, []*TJ{p, ix})
 				ps = append(ps, []*TJ{p, idxT("i64", []int{1}, []int{1}), idxT("i64", []int{1}, []int{3}), idxT("i64", []int{1}, []int{0})})
 				pt = append(pt, []*TJ{p})
-				pc = append(pc, []*TJ{p, p})
+				pc = append(pc, []*TJ{p, p2s[pi]})
 				pe = append(pe, []*TJ{p, idxT("i64", []int{3}, []int{2, 3, p.Shape[1]})})
 			}
 			e.emit(scaleCaseAxis("scale-wide-blocks", "Gather", []Attr{{Name: "axis", Type: "i", I: 0}}, []*TJ{x, ix}, pg, 1, 3*w))
 			e.emit(scaleCaseAxis("scale-wide-blocks", "Slice", nil, []*TJ{x, idxT("i64", []int{1}, []int{1}), idxT("i64", []int{1}, []int{3}), idxT("i64", []int{1}, []int{0})}, ps, 1, 3*w))
 			e.emit(scaleCaseAxis("scale-wide-blocks", "Transpose", []Attr{{Name: "perm", Type: "ints", Ints: []int64{1, 0}}}, []*TJ{x}, pt, 0, 3*w))
-			e.emit(scaleCaseAxis("scale-wide-blocks", "Concat", []Attr{{Name: "axis", Type: "i", I: 0}}, []*TJ{x, x}, pc, 1, 3*w))
+			e.emit(scaleCaseAxis("scale-wide-blocks", "Concat", []Attr{{Name: "axis", Type: "i", I: 0}}, []*TJ{x, x2}, pc, 1, 3*w))
 			e.emit(scaleCaseAxis("scale-wide-blocks", "Expand", nil, []*TJ{x, idxT("i64", []int{3}, []int{2, 3, w})}, pe, 2, 3*w))
 		}
 	case "C09":
